@@ -298,3 +298,190 @@ example :
   decide
 
 end Builders
+
+/-! ## Exactness of capability recognition (`impl FromStr for Capability`, capabilities.rs:123-183)
+
+For **every** decomposition `p : UriParts` of the capability text (whatever iri-string returns):
+a capability of the table is recognised **iff** the five components are exactly those of the
+table (`UriParts.Is`: scheme, authority, path as given, **no** query, **no** fragment). So no URI
+with a query or a fragment — not even an empty one (`some []`: `…base:1.0#`, `…base:1.0?`) —,
+another scheme spelling or a longer/shorter path is ever taken for it. -/
+namespace Caps
+
+theorem classify_base10_iff (raw : Str) (p : UriParts) :
+    classify raw p = .base10 ↔ p.Is "urn" none "ietf:params:netconf:base:1.0" := by caps_exact
+
+theorem classify_base11_iff (raw : Str) (p : UriParts) :
+    classify raw p = .base11 ↔ p.Is "urn" none "ietf:params:netconf:base:1.1" := by caps_exact
+
+theorem classify_writableRunning_iff (raw : Str) (p : UriParts) :
+    classify raw p = .writableRunning ↔ p.Is "urn" none "ietf:params:netconf:capability:writable-running:1.0" := by
+  caps_exact
+
+theorem classify_candidate_iff (raw : Str) (p : UriParts) :
+    classify raw p = .candidate ↔ p.Is "urn" none "ietf:params:netconf:capability:candidate:1.0" := by caps_exact
+
+theorem classify_confirmedCommit10_iff (raw : Str) (p : UriParts) :
+    classify raw p = .confirmedCommit10 ↔ p.Is "urn" none "ietf:params:netconf:capability:confirmed-commit:1.0" := by
+  caps_exact
+
+theorem classify_confirmedCommit11_iff (raw : Str) (p : UriParts) :
+    classify raw p = .confirmedCommit11 ↔ p.Is "urn" none "ietf:params:netconf:capability:confirmed-commit:1.1" := by
+  caps_exact
+
+theorem classify_rollbackOnError_iff (raw : Str) (p : UriParts) :
+    classify raw p = .rollbackOnError ↔ p.Is "urn" none "ietf:params:netconf:capability:rollback-on-error:1.0" := by
+  caps_exact
+
+theorem classify_validate10_iff (raw : Str) (p : UriParts) :
+    classify raw p = .validate10 ↔ p.Is "urn" none "ietf:params:netconf:capability:validate:1.0" := by caps_exact
+
+theorem classify_validate11_iff (raw : Str) (p : UriParts) :
+    classify raw p = .validate11 ↔ p.Is "urn" none "ietf:params:netconf:capability:validate:1.1" := by caps_exact
+
+theorem classify_startup_iff (raw : Str) (p : UriParts) :
+    classify raw p = .startup ↔ p.Is "urn" none "ietf:params:netconf:capability:startup:1.0" := by caps_exact
+
+theorem classify_xpath_iff (raw : Str) (p : UriParts) :
+    classify raw p = .xpath ↔ p.Is "urn" none "ietf:params:netconf:capability:xpath:1.0" := by caps_exact
+
+theorem classify_junos_iff (raw : Str) (p : UriParts) :
+    classify raw p = .junos ↔ p.Is "http" (some "xml.juniper.net") "/netconf/junos/1.0" := by caps_exact
+
+/-- the `:url:1.0` capability: exact scheme, no authority, exact path, no fragment, **some** query;
+its scheme list is `urlSchemes` of that query -/
+theorem classify_url_iff (raw : Str) (p : UriParts) (l : List Str) :
+    classify raw p = .url l ↔
+      p.scheme = "urn".toList ∧ p.authority = none ∧ p.path = "ietf:params:netconf:capability:url:1.0".toList ∧
+        p.fragment = none ∧ ∃ q, p.query = some q ∧ l = urlSchemes q := by
+  constructor
+  · intro h
+    unfold classify at h
+    dsimp only at h
+    repeat' (replace h := ite_cases h; rcases h with ⟨hc, h⟩ | ⟨_, h⟩)
+    all_goals first | (cases h; done) | skip
+    simp only [Bool.and_eq_true, beq_iff_eq] at hc
+    split at h
+    · next q hq =>
+      cases h
+      exact ⟨hc.1.1.1, hc.1.1.2, hc.1.2.trans (by decide), hc.2, q, hq, rfl⟩
+    · cases h
+  · rintro ⟨h1, h2, h3, h4, q, h5, rfl⟩
+    simp [classify, h1, h2, h3, h4, h5, urnCap]
+
+/-- anything else is `Unknown` and keeps the capability text as it stands -/
+theorem classify_unknown (raw t : Str) (p : UriParts) (h : classify raw p = .unknown t) : t = raw := by
+  unfold classify at h
+  dsimp only at h
+  repeat' (replace h := ite_cases h; rcases h with ⟨hc, h⟩ | ⟨_, h⟩)
+  all_goals first | (cases h; done) | skip
+  · split at h
+    · cases h
+    · cases h; rfl
+  · cases h; rfl
+
+/-- the reader (`readCapability`, with or without resolving character references in the query)
+recognises a non-`:url` capability exactly when `classify` does on the parts iri-string reports -/
+theorem readCapability_eq_iff (b : Bool) (t : CapText) (k : Capability) (hk : ∀ l, k ≠ .url l) :
+    readCapability b t = some k ↔ ∃ p, t.parts = some p ∧ classify t.text p = k := by
+  unfold readCapability
+  cases hp : t.parts with
+  | none => simp
+  | some p =>
+    simp only [Option.some.injEq, exists_eq_left']
+    split
+    · next l hl =>
+      constructor
+      · intro h
+        exfalso
+        cases b <;> simp only [Bool.false_eq_true, if_false, if_true] at h
+        · cases h; exact hk _ rfl
+        · split at h
+          · cases h; exact hk _ rfl
+          · cases h; exact hk _ rfl
+          · cases h
+      · intro h; rw [hl] at h; exact absurd h.symm (hk l)
+    · next c hc => simp
+
+/-- **C09/C12, exactness at the reader**: `:base:1.0` is recognised iff the capability text is a
+URI whose components are exactly `urn`, no authority, `ietf:params:netconf:base:1.0`, no query, no
+fragment. -/
+theorem readCapability_base10_iff (b : Bool) (t : CapText) :
+    readCapability b t = some .base10 ↔ ∃ p, t.parts = some p ∧ p.Is "urn" none "ietf:params:netconf:base:1.0" := by
+  rw [readCapability_eq_iff b t _ (fun _ h => by cases h)]
+  simp only [classify_base10_iff]
+
+theorem readCapability_base11_iff (b : Bool) (t : CapText) :
+    readCapability b t = some .base11 ↔ ∃ p, t.parts = some p ∧ p.Is "urn" none "ietf:params:netconf:base:1.1" := by
+  rw [readCapability_eq_iff b t _ (fun _ h => by cases h)]
+  simp only [classify_base11_iff]
+
+/-! ### the scheme list of `:url:1.0` -/
+
+/-- **the schemes are exactly the comma-separated values of the parameters named `scheme`**: `x` is
+a scheme of the query iff one of its `&`-separated parameters is `scheme=` followed by a value one
+of whose `,`-separated pieces is `x`. (`splitOn c` is *the* decomposition into `c`-free pieces
+separated by `c`: `split_is_the_decomposition`.) -/
+theorem url_schemes_mem_iff (q x : Str) :
+    x ∈ urlSchemes q ↔
+      ∃ param ∈ splitOn '&' q, ∃ value, param = "scheme=".toList ++ value ∧ x ∈ splitOn ',' value :=
+  mem_urlSchemes_iff q x
+
+/-- `str::split(c)` yields the one and only list of `c`-free pieces that, joined by `c`, give the text -/
+theorem split_is_the_decomposition (c : Char) (l : Str) (ps : List Str) :
+    splitOn c l = ps ↔ ps ≠ [] ∧ (∀ p ∈ ps, c ∉ p) ∧ joinSep c ps = l :=
+  splitOn_eq_iff c l ps
+
+/-- the same, declaratively: for a query written as `&`-free parameters joined by `&` -/
+theorem url_schemes_of_params_mem_iff (params : List Str) (hne : params ≠ []) (hfree : ∀ p ∈ params, '&' ∉ p)
+    (x : Str) :
+    x ∈ urlSchemes (joinSep '&' params) ↔
+      ∃ value, ("scheme=".toList ++ value) ∈ params ∧ x ∈ splitOn ',' value :=
+  mem_urlSchemes_joinSep_iff params hne hfree x
+
+/-- a parameter whose name is not exactly `scheme` (`fallback-scheme=…`, `xscheme=…`, `scheme` without
+`=`, `Scheme=…`) contributes nothing: if no parameter starts with `scheme=`, there are no schemes -/
+theorem url_schemes_nil_without_scheme_param (q : Str)
+    (h : ∀ param ∈ splitOn '&' q, ¬ "scheme=".toList <+: param) : urlSchemes q = [] :=
+  urlSchemes_eq_nil q h
+
+/-- … and other parameters never change what the `scheme` parameters contribute -/
+theorem url_schemes_ignore_other_params (params other : List Str) (hne : params ≠ [])
+    (hfree : ∀ p ∈ params ++ other, '&' ∉ p) (hother : ∀ p ∈ other, ¬ "scheme=".toList <+: p) (x : Str) :
+    x ∈ urlSchemes (joinSep '&' (params ++ other)) ↔ x ∈ urlSchemes (joinSep '&' params) :=
+  urlSchemes_append_other params other hne hfree hother x
+
+/-! ### near misses (non-vacuity and documentation; all by evaluation) -/
+
+/-- `urn:ietf:params:netconf:base:1.0#` — an empty fragment is a fragment -/
+theorem base10_empty_fragment_is_unknown :
+    classify "urn:ietf:params:netconf:base:1.0#".toList
+      ⟨"urn".toList, none, "ietf:params:netconf:base:1.0".toList, none, some []⟩
+      = .unknown "urn:ietf:params:netconf:base:1.0#".toList := by decide
+
+/-- `urn:ietf:params:netconf:base:1.0?` — an empty query is a query -/
+theorem base10_empty_query_is_unknown :
+    classify "urn:ietf:params:netconf:base:1.0?".toList
+      ⟨"urn".toList, none, "ietf:params:netconf:base:1.0".toList, some [], none⟩
+      = .unknown "urn:ietf:params:netconf:base:1.0?".toList := by decide
+
+/-- `urn:ietf:params:netconf:base:1.00`, `…base:1.`, `URN:…`, `urn://host/…`: longer / shorter path,
+another scheme spelling, an authority -/
+theorem base10_near_misses_are_unknown :
+    classify [] ⟨"urn".toList, none, "ietf:params:netconf:base:1.00".toList, none, none⟩ = .unknown []
+    ∧ classify [] ⟨"urn".toList, none, "ietf:params:netconf:base:1.".toList, none, none⟩ = .unknown []
+    ∧ classify [] ⟨"URN".toList, none, "ietf:params:netconf:base:1.0".toList, none, none⟩ = .unknown []
+    ∧ classify [] ⟨"urn".toList, some [], "ietf:params:netconf:base:1.0".toList, none, none⟩ = .unknown []
+    ∧ classify [] ⟨"urn".toList, none, "ietf:params:netconf:base:1.0".toList, none, none⟩ = .base10 := by decide
+
+/-- `?scheme=file&fallback-scheme=ftp`: only the parameter named `scheme` counts -/
+theorem url_other_parameter_names_ignored :
+    urlSchemes "scheme=file&fallback-scheme=ftp".toList = ["file".toList]
+    ∧ urlSchemes "xscheme=http&fallback-scheme=ftp&scheme".toList = []
+    ∧ urlSchemes "fallback-scheme=ftp&scheme=file,sftp&Scheme=http".toList = ["file".toList, "sftp".toList]
+    ∧ classify [] ⟨"urn".toList, none, "ietf:params:netconf:capability:url:1.0".toList,
+        some "scheme=file&fallback-scheme=ftp".toList, none⟩ = .url ["file".toList]
+    ∧ urlSchemeAdvertised [.url (urlSchemes "scheme=file&fallback-scheme=ftp".toList)] "ftp".toList = false := by
+  decide
+
+end Caps
